@@ -528,6 +528,9 @@ impl Bdd {
     }
 
     fn generate_var_dependencies(&mut self) {
+        // the lists are rebuilt from scratch; entries which already exist must not be kept (and shifted)
+        #[cfg(feature = "variablelist")]
+        self.var_deps.clear();
         #[cfg(feature = "variablelist")]
         self.nodes.iter().for_each(|node| {
             if node.var() >= Var::BOT {
